@@ -50,6 +50,9 @@ func c13Monitor(st *engine.Step) {
 			uid, half = sec.Owner, true
 		}
 	}
+	if pre.Truth.Flags["c13:level:"+b] == "half" {
+		half = true // the oracle's own record: restored from a cookie, no login completed since
+	}
 	emailReq := st.S.AB.Config.Modules.TwoFactorEmailAuthRequired
 	authed := o.SessBefore[authboss.Session2FAAuthed] == "true"
 
@@ -167,9 +170,38 @@ func c13Monitor(st *engine.Step) {
 }
 
 // c13Model: a mailed token is spent by the verification it authorises.
+// c13Level is the oracle's own record of how a browser's session came by its user: "half" when a
+// remember cookie restored it and no login has been completed since (independent of the library's mark).
+func c13Level(st *engine.Step) {
+	o := st.Obs
+	t := st.Post.Truth
+	k := "c13:level:" + o.Req.Browser
+	u, u2 := o.UIDBefore(), o.UIDAfter()
+	tag := o.Req.Tag
+	switch {
+	case u2 == "":
+		delete(t.Flags, k)
+	case tag.Kind == "login":
+		r, ok := st.Pre.DB.Users[tag.PID]
+		if p, okp := world.PlainOf(r.Password); ok && okp && p == tag.Secret && tag.PID == u2 && r.TOTPSecretKey == "" && r.SMSPhoneNumber == "" {
+			t.Flags[k] = "full" // a password login of an account without a second factor completes at once
+		} else if u == "" && u2 != "" {
+			t.Flags[k] = "half" // the cookie of the same request restored a user; the login itself did not complete
+		}
+	case (tag.Kind == "totp_validate" || tag.Kind == "sms_validate") && o.OK() && (o.SessBefore["totp_pending"] == u2 || o.SessBefore["sms_pending"] == u2) && o.SessAfter["totp_pending"] == "" && o.SessAfter["sms_pending"] == "":
+		t.Flags[k] = "full" // a pending login was completed by its second factor
+	case u == "" && u2 != "" && st.S.Cfg.Has("remember") && o.CookBefore["rm"] != "":
+		t.Flags[k] = "half"
+	}
+}
+
 func c13Model(st *engine.Step) {
 	o := st.Obs
-	if o == nil || o.Req.Tag.Kind != "verify_end" {
+	if o == nil {
+		return
+	}
+	c13Level(st)
+	if o.Req.Tag.Kind != "verify_end" {
 		return
 	}
 	if o.SessAfter[authboss.Session2FAAuthed] == "true" && o.SessBefore[authboss.Session2FAAuthed] != "true" {
@@ -229,6 +261,9 @@ func c13Cover(st *engine.Step) []string {
 	switch tag.Kind {
 	case "totp_setup", "totp_confirm", "totp_remove", "sms_setup", "sms_confirm", "sms_remove", "regen", "verify_start", "verify_end":
 		c = append(c, "attempt:"+kind)
+		if st.Pre.Truth.Flags["c13:level:"+o.Req.Browser] == "half" && (o.SessBefore["totp_pending"] != "" || o.SessBefore["sms_pending"] != "") {
+			c = append(c, "attempt:half-authed+pending")
+		}
 	}
 	return c
 }
@@ -429,6 +464,40 @@ func c13Scenarios(tier string) []engine.Scenario {
 			},
 			Model: c13Model, Monitor: c13Monitor, Cover: c13Cover,
 			Actions: c13Actions(true, false),
+		}
+		out = append(out, engine.Sharded(sc, 8)...)
+	}
+	// the account with a second factor comes back on a remember cookie: submitting the password again only parks a login
+	{
+		sc := engine.Scenario{
+			Name: "enrolled,returning-on-cookie", Depth: depth,
+			Cfg: world.Config{Modules: []string{"auth", "remember", "logout", "totp2fa", "sms2fa", "recovery"}},
+			Init: func(s *world.Stack) *world.World {
+				w := world.NewWorld("B1", "B2")
+				flows.SeedAcct(s, w, flows.Acct{PID: U1, Password: P1})
+				flows.SeedAcct(s, w, flows.Acct{PID: U2, Password: P2, TOTPSecret: flows.TOTPSecrets[1], RecoveryCodes: []string{"ddddd-44444", "eeeee-55555"}})
+				// the remember cookie dates from before the account enabled its second factor (a 2FA login is
+				// never given one): real login with remember-me while the factor is off, then browser restart
+				// and a first request on the cookie
+				r := w.DB.Users[U2]
+				sec := r.TOTPSecretKey
+				r.TOTPSecretKey = ""
+				w.DB.Users[U2] = r
+				flows.Exec(s, w, flows.Login(s, "B2", U2, P2, true), "")
+				r = w.DB.Users[U2]
+				r.TOTPSecretKey = sec
+				w.DB.Users[U2] = r
+				w.Browsers["B2"].Session = map[string]string{}
+				flows.Exec(s, w, flows.Open("B2"), "")
+				if w.Browsers["B2"].Session["uid"] != U2 {
+					panic("c13: returning-on-cookie fixture did not produce a cookie session")
+				}
+				w.Truth.Flags["c13:level:B2"] = "half"
+				return w
+			},
+			Model: c13Model, Monitor: c13Monitor, Cover: c13Cover,
+			Actions: c13Actions(false, false),
+			Need:    []string{"attempt:half-authed", "attempt:half-authed+pending"},
 		}
 		out = append(out, engine.Sharded(sc, 8)...)
 	}
